@@ -340,6 +340,7 @@ var quietOnce sync.Once
 type ringOutputter struct {
 	mu    sync.Mutex
 	lines []string
+	total int // lines ever logged
 }
 
 func (r *ringOutputter) Level() log.Level { return log.Info }
@@ -352,6 +353,7 @@ func (r *ringOutputter) Output(_ int, lvl log.Level, s string) error {
 		s = s[:300]
 	}
 	r.lines = append(r.lines, s)
+	r.total++
 	r.mu.Unlock()
 	return nil
 }
@@ -382,6 +384,27 @@ func logSeen(s string) bool {
 		}
 	}
 	return false
+}
+
+// logMark returns a position in the library's log; logCountSince counts the lines containing s
+// logged after it (within the ring's memory).
+func logMark() int {
+	logRing.mu.Lock()
+	defer logRing.mu.Unlock()
+	return logRing.total
+}
+
+func logCountSince(mark int, s string) int {
+	logRing.mu.Lock()
+	defer logRing.mu.Unlock()
+	first := logRing.total - len(logRing.lines) // number of the oldest line kept
+	n := 0
+	for i, l := range logRing.lines {
+		if first+i >= mark && strings.Contains(l, s) {
+			n++
+		}
+	}
+	return n
 }
 
 func quietLogs() {
@@ -433,6 +456,12 @@ func startSession(c sessConf, actions ...ipAction) *liveSession {
 
 // scanRows reads all rows of a result through its Scanner.
 func scanRows(ctx context.Context, res *exec.Result) ([]row, error) {
+	return scanRowsThen(ctx, res, -1, nil)
+}
+
+// scanRowsThen is scanRows that calls then() once, after the scanner has been opened and `after`
+// rows have been read (or the scan has ended before that), and goes on scanning.
+func scanRowsThen(ctx context.Context, res *exec.Result, after int, then func()) ([]row, error) {
 	sc := res.Scanner()
 	defer sc.Close()
 	n := res.NumOut()
@@ -441,7 +470,15 @@ func scanRows(ctx context.Context, res *exec.Result) ([]row, error) {
 		ptrs[i] = reflect.New(res.Out(i)).Interface()
 	}
 	var rows []row
+	if then != nil && after == 0 {
+		then()
+		then = nil
+	}
 	for sc.Scan(ctx, ptrs...) {
+		if then != nil && len(rows)+1 >= after {
+			then()
+			then = nil
+		}
 		r := make(row, n)
 		for i := range ptrs {
 			r[i] = cloneProgVal(reflect.ValueOf(ptrs[i]).Elem().Interface())
